@@ -53,7 +53,21 @@ impl<K, V> HashMap<K, V> {
     pub fn is_empty(&self) -> (r: bool)
         ensures r == (self@.len() == 0),
     { unimplemented!() }
+    #[verifier::external_body]
+    pub fn clear(&mut self)
+        ensures final(self)@ == Map::<K, V>::empty(),
+    { unimplemented!() }
+    // `for v in map.values()`: the values in iteration order
+    #[verifier::external_body]
+    pub fn values(&self) -> (r: &Vec<V>)
+        ensures r@.len() == self.entries().len(), forall|i: int| 0 <= i < r@.len() ==> #[trigger] r@[i] == self.entries()[i].1,
+    { unimplemented!() }
 }
+// `map.keys().cloned().collect::<Vec<K>>()`: every key exactly once, in iteration order; shim with that body
+#[verifier::external_body]
+pub fn vx_keys_vec<K: Clone, V>(m: &HashMap<K, V>) -> (r: Vec<K>)
+    ensures forall|k: K| m@.contains_key(k) <==> r@.contains(k),
+{ unimplemented!() }
 
 #[verifier::external_body]
 #[verifier::reject_recursive_types(K)]
